@@ -14,6 +14,10 @@
 (* tuples in the same (scaled) coordinate system.                              *)
 EXTENDS GeomLocate, Fx
 
+\* iterative sums (SequencesExt!FoldLeft is evaluated by a Java loop: no recursion depth issue on long sequences)
+ISum(s)  == FoldLeft(LAMBDA acc, x : acc + x, 0, s)
+FxSum(s) == FoldLeft(LAMBDA acc, x : FxAdd(acc, x), FxZero, s)
+
 \* ---------------------------------------------------------------------------
 \* FindOK: relational.  res = <<cells>> (1-based, one per point) or <<>> together with err # "".
 \* ct[n] = Containing(m, pts[n]) is computed once per event by the caller.
@@ -158,7 +162,7 @@ ProbeRows(m, b, e, ct) ==
 \* magnitude of the expansion at point n:  1 + sum_i |y_i| (|phi_i| + 1), an integer; tolerances scale with it
 ExpMagnitude(b, e, n) ==
   LET k == e.cells[n] IN
-  1 + SumSeq([i \in DOMAIN b.edofs[k] |->
+  1 + ISum([i \in DOMAIN b.edofs[k] |->
         Abs(b.y[b.edofs[k][i]]) * (1 + MaxSet({Abs(FxAbs(e.phis[n][c][i])[1]) : c \in 1..b.ncomp}))])
 TolGeom   == FxTol(36)                  \* 2^-36 per unit of magnitude: well-conditioned (reference-mapped) elements
 TolGlobal == FxTol(26)                  \* elements defined through an inverted Vandermonde matrix in global coordinates
@@ -170,7 +174,7 @@ LocalExpansion(m, b, e) ==
   LET N == Len(e.pts) IN
   \A n \in 1..N : \A c \in 1..b.ncomp :
     LET k == e.cells[n]
-        ex == FxSumSeq([i \in DOMAIN b.edofs[k] |-> FxMulSmall(e.phis[n][c][i], b.y[b.edofs[k][i]])])
+        ex == FxSum([i \in DOMAIN b.edofs[k] |-> FxMulSmall(e.phis[n][c][i], b.y[b.edofs[k][i]])])
     IN FxNear(e.vals[RowOf(c, n, N)], ex, TolAt(b, e, n))
 
 \* at the global quadrature points the evaluation agrees with basis.interpolate(y)
@@ -183,12 +187,18 @@ AgreesWithInterpolate(m, b, e) ==
 \* computed here from integer data); S is the coordinate scale (vertex values are attached to vertices, so
 \* the interpolant is scale-free)
 P1Applicable(m, b) == b.family = "P1" /\ m.kind \in {"line", "tri", "tet"} /\ b.ncomp = 1
+RECURSIVE Gcd(_, _)
+Gcd(a, c) == IF c = 0 THEN Abs(a) ELSE Gcd(c, a % Abs(c))
+RECURSIVE GcdSeq(_)
+GcdSeq(s) == IF s = <<>> THEN 0 ELSE Gcd(Head(s), GcdSeq(Tail(s)))
 P1Value(m, b, x, ctn) ==
   LET k  == CHOOSE kk \in ctn : TRUE
       V  == CellPts(m, k)
       d0 == OrientV(V)
-      num == SumSeq([i \in DOMAIN V |-> Sgn(d0) * BaryNum(V, x)[i] * b.y[b.vdof[m.t[k][i]]]])
-  IN [num |-> num, den |-> Abs(d0)]
+      bn == BaryNum(V, x)
+      g  == Gcd(d0, GcdSeq([i \in DOMAIN V |-> Abs(bn[i])]))             \* reduce the common factor of the scaling
+      num == ISum([i \in DOMAIN V |-> Sgn(d0) * (bn[i] \div g) * b.y[b.vdof[m.t[k][i]]]])
+  IN [num |-> num, den |-> Abs(d0) \div g]
 P1Exact(m, b, e, ct) ==
   \A n \in DOMAIN e.pts :
     (ct[n] # {}) =>
@@ -208,7 +218,7 @@ SamePointSameValue(b, pv, seen) ==
 
 \* point_source(x) . y  equals the value at x  (scalar elements): e.ps = sparse vector [cols, vals]
 PointSourceOK(m, b, e, ct) ==
-     LET dotp == FxSumSeq([j \in DOMAIN e.pscols |-> FxMulSmall(e.psvals[j], b.y[e.pscols[j]])])
+     LET dotp == FxSum([j \in DOMAIN e.pscols |-> FxMulSmall(e.psvals[j], b.y[e.pscols[j]])])
      IN /\ \A j \in DOMAIN e.pscols : e.pscols[j] \in 1..b.ndofs /\ FxWF(e.psvals[j])
         /\ \E kk \in DOMAIN m.t : VSet(e.pscols) \subseteq VSet(b.edofs[kk]) /\ CellContains(m, e.pts[1], kk, ct[1])
         /\ FxNear(dotp, e.vals[1], TolAt(b, e, 1))
